@@ -131,6 +131,7 @@ class Watchdog(threading.Thread):
     def run(self):
         while not self.stop:
             try:
+                procs = []
                 for pid in os.listdir("/proc"):
                     if not pid.isdigit():
                         continue
@@ -141,11 +142,22 @@ class Watchdog(threading.Thread):
                         for ln in open("/proc/%s/status" % pid):
                             if ln.startswith("VmRSS:"):
                                 kb = int(ln.split()[1])
+                                procs.append((kb, pid))
                                 if kb > self.cap:
                                     os.kill(int(pid), 9)
                                     self.killed.append((pid, kb))
                     except (OSError, ValueError):
                         continue
+                # machine-level guard: with many solvers in parallel the box (no swap) must not run out
+                try:
+                    avail = [int(l.split()[1]) for l in open("/proc/meminfo") if l.startswith("MemAvailable:")][0]
+                    if avail < 4 * 1024 * 1024 and procs:
+                        kb, pid = max(procs)
+                        os.kill(int(pid), 9)
+                        self.killed.append((pid, kb))
+                        log("watchdog: MemAvailable %d MB - killed largest solver pid %s rss %d MB" % (avail // 1024, pid, kb // 1024))
+                except (OSError, ValueError, IndexError):
+                    pass
             except OSError:
                 pass
             time.sleep(2)
